@@ -397,17 +397,16 @@ theorem eff_step (E D : Spec.Rfc4493.BlockFn) (cfg : Config) (sys : Sys) (i : Na
     | uplink s => exact key _ (eff_stepUplink E sys s fault)
     | join s => exact key _ (eff_stepJoin E cfg sys s fault)
     | notify p c =>
-      refine key (if sys.scheduled.contains c.device.eui then (sys, [.done])
-        else ({ sys with scheduled := c.device.eui :: sys.scheduled }, [.sendAt c])) ?_
+      refine key (stepNotify sys c) ?_
+      unfold stepNotify
       split
       · exact Eff.refl _
       · exact Eff.of_devices rfl rfl rfl
     | sendAt c =>
-      refine key (match (fobTake sys.fob c.device c.gw.dataRate).2 with
-        | some p => ({ sys with fob := (fobTake sys.fob c.device c.gw.dataRate).1 }, [.sendDone c.device.eui, .encoder 0 p c []])
-        | none => ({ sys with fob := (fobTake sys.fob c.device c.gw.dataRate).1 }, [.sendDone c.device.eui])) ?_
+      refine key (stepSendAt sys c) ?_
+      unfold stepSendAt
       split <;> exact Eff.of_devices rfl rfl rfl
-    | sendDone e => exact key ({ sys with scheduled := sys.scheduled.filter (· != e) }, [.done]) (Eff.of_devices rfl rfl rfl)
+    | sendDone e => exact key (stepSendDone sys e) (Eff.of_devices rfl rfl rfl)
     | encoder pc p c b => exact key _ (eff_stepEncoder E D sys pc p c b fault)
     | done => exact key (sys, [.done]) (Eff.refl _)
 
